@@ -30,16 +30,27 @@ type c16Store struct {
 	mu    sync.Mutex
 	docs  map[string]*c16Doc
 	loads map[string]int
+	// failRevision: the next n getRevision calls fail (a transient body-load failure after GetDocument succeeded)
+	failRevision map[int]int
 }
 
 const c16RevTreeID = "1-abc"
 
 func c16CV(docID string) Version { return Version{SourceID: "src", Value: 100 + uint64(docID[len(docID)-1]-'0')} }
 
+func (s *c16Store) exists(docID string) bool {
+	s.mu.Lock()
+	defer s.mu.Unlock()
+	return s.docs[docID] != nil
+}
+
 func (s *c16Store) snapshot(docID string) c16Doc {
 	s.mu.Lock()
 	defer s.mu.Unlock()
 	d := s.docs[docID]
+	if d == nil {
+		return c16Doc{}
+	}
 	return c16Doc{body: d.body, channels: append([]string{}, d.channels...), version: d.version}
 }
 
@@ -78,6 +89,16 @@ func (s *c16Store) getRevision(ctx context.Context, doc *Document, revid string)
 	if revid != doc.GetRevTreeID() {
 		return nil, nil, nil, ErrMissing
 	}
+	s.mu.Lock()
+	tid := vsched.ThreadID()
+	fail := s.failRevision[tid] > 0
+	if fail {
+		s.failRevision[tid]--
+	}
+	s.mu.Unlock()
+	if fail {
+		return nil, nil, nil, fmt.Errorf("injected transient failure loading revision %s of %s", revid, doc.ID)
+	}
 	b, ch, err := s.bodyFor(doc)
 	return b, nil, ch, err
 }
@@ -91,7 +112,9 @@ func (s *c16Store) getCurrentVersion(ctx context.Context, doc *Document, cv Vers
 }
 
 type c16Scenario struct {
-	Progs     [][]string `json:"progs"` // ops: get1 get2 miss1 act1 act2 put1 put2 ups1 ups2 rem1 rem2 peek1 chan1
+	// ops: get1 get2 miss1 act1 act2 put1 put2 ups1 ups2 rem1 rem2 peek1 chan1; d3 does not exist until new3 stores it and
+	// puts it in the cache (a writer creating a document); actf1 = get-active whose body load fails once
+	Progs     [][]string `json:"progs"`
 	Capacity  uint32     `json:"capacity"`
 	MaxBytes  int64      `json:"max_bytes"`
 	PreLoaded []string   `json:"preloaded,omitempty"` // docs loaded (sequentially) before the threads start
@@ -113,6 +136,8 @@ type c16Obs struct {
 	channels string
 	found    bool
 	startVer int // store version of the doc when the op started
+	existed  bool // the document was in storage when the op started
+	t0, t1   int  // logical start / end time (one controlled thread runs at a time)
 	endVer   int // version whose invalidation had completed when the op started (chanDone)
 }
 
@@ -121,7 +146,7 @@ func c16Build(t testing.TB, r *vreport.Report, sc c16Scenario) vsched.Scenario {
 	store := &c16Store{docs: map[string]*c16Doc{
 		"d1": {body: "B1", channels: []string{"A"}},
 		"d2": {body: "B2-longer-body", channels: []string{"A", "BB"}},
-	}, loads: map[string]int{}}
+	}, loads: map[string]int{}, failRevision: map[int]int{}}
 	stats := revisionCacheStats{cacheHitStat: &base.SgwIntStat{}, cacheMissStat: &base.SgwIntStat{}, cacheNumItemsStat: &base.SgwIntStat{}, cacheMemoryStat: &base.SgwIntStat{}}
 	const coll = uint32(0)
 	orch := NewRevisionCacheOrchestrator(&RevisionCacheOptions{MaxItemCount: sc.Capacity, MaxBytes: sc.MaxBytes, ShardCount: 1},
@@ -146,6 +171,14 @@ func c16Build(t testing.TB, r *vreport.Report, sc c16Scenario) vsched.Scenario {
 		}
 	}
 	var chanDone sync.Map // doc -> version whose invalidation has completed
+	var clockMu sync.Mutex
+	clock := 0
+	tick := func() int {
+		clockMu.Lock()
+		defer clockMu.Unlock()
+		clock++
+		return clock
+	}
 	obs := make([][]c16Obs, len(sc.Progs))
 	threads := make([]func(), len(sc.Progs))
 	for ti := range sc.Progs {
@@ -159,6 +192,8 @@ func c16Build(t testing.TB, r *vreport.Report, sc c16Scenario) vsched.Scenario {
 					o.endVer = v.(int)
 				}
 				o.startVer = store.snapshot(docID).version
+				o.existed = store.exists(docID)
+				o.t0 = tick()
 				fill := func(dr DocumentRevision, err error) {
 					o.err = err
 					if err == nil {
@@ -179,6 +214,22 @@ func c16Build(t testing.TB, r *vreport.Report, sc c16Scenario) vsched.Scenario {
 				case "act":
 					dr, _, err := orch.GetActive(ctx, docID, coll)
 					fill(dr, err)
+				case "actf":
+					store.mu.Lock()
+					store.failRevision[vsched.ThreadID()] = 1 // only this thread's own load fails
+					store.mu.Unlock()
+					dr, _, err := orch.GetActive(ctx, docID, coll)
+					fill(dr, err)
+					store.mu.Lock()
+					store.failRevision[vsched.ThreadID()] = 0
+					store.mu.Unlock()
+				case "new":
+					// a writer creates the document: stores it, then puts the revision it wrote in the cache
+					vsched.Point(vsched.KUser, "store.create:"+docID)
+					store.mu.Lock()
+					store.docs[docID] = &c16Doc{body: "B3-created", channels: []string{"A"}}
+					store.mu.Unlock()
+					o.err = orch.Put(ctx, docRevFor(docID), coll)
 				case "put":
 					o.err = orch.Put(ctx, docRevFor(docID), coll)
 				case "ups":
@@ -204,6 +255,7 @@ func c16Build(t testing.TB, r *vreport.Report, sc c16Scenario) vsched.Scenario {
 					orch.Remove(ctx, docID, c16CV(docID).String(), coll)
 					chanDone.Store(docID, ver)
 				}
+				o.t1 = tick()
 				obs[ti] = append(obs[ti], o)
 			}
 		}
@@ -217,10 +269,55 @@ func c16Build(t testing.TB, r *vreport.Report, sc c16Scenario) vsched.Scenario {
 				if ver > 0 {
 					return "CCC"
 				}
-				if docID == "d1" {
-					return "A"
+				if docID == "d2" {
+					return "A,BB"
 				}
-				return "A,BB"
+				return "A"
+			}
+			// A read that fails is judged only when its failure cannot come from a load that legitimately failed: the cache
+			// lets concurrent readers of one key share one load, so a read overlapping (directly or through a chain of
+			// overlapping failed reads) a load that failed for a good reason (document not stored yet when that load
+			// started, or the injected body-load failure) may report that load's error. The property constrains
+			// revisions that are served, not which overlapping read reports a failed load.
+			type fo struct {
+				doc    string
+				t0, t1 int
+			}
+			var excused []fo
+			for _, os := range obs {
+				for _, o := range os {
+					if o.err != nil && (!o.existed || o.op == "actf") {
+						excused = append(excused, fo{o.doc, o.t0, o.t1})
+					}
+				}
+			}
+			isExcused := func(o c16Obs) bool {
+				for _, f := range excused {
+					if f.doc == o.doc && f.t0 <= o.t1 && o.t0 <= f.t1 {
+						return true
+					}
+				}
+				return false
+			}
+			for changed := true; changed; {
+				changed = false
+				for _, os := range obs {
+					for _, o := range os {
+						if o.err == nil || (o.op != "get" && o.op != "act") || !isExcused(o) {
+							continue
+						}
+						dup := false
+						for _, f := range excused {
+							if f.doc == o.doc && f.t0 == o.t0 && f.t1 == o.t1 {
+								dup = true
+							}
+						}
+						if !dup {
+							excused = append(excused, fo{o.doc, o.t0, o.t1})
+							changed = true
+						}
+					}
+				}
 			}
 			var outcome []string
 			for ti, os := range obs {
@@ -232,6 +329,9 @@ func c16Build(t testing.TB, r *vreport.Report, sc c16Scenario) vsched.Scenario {
 							continue
 						}
 						if o.err != nil {
+							if !o.existed || isExcused(o) {
+								continue // not stored yet when the read started, or sharing a load that failed for a good reason
+							}
 							viol["C16/read/unexpected-error/"+o.op] = fmt.Sprintf("%s(%s): %v [%s]", o.op, o.doc, o.err, name)
 							continue
 						}
@@ -253,7 +353,10 @@ func c16Build(t testing.TB, r *vreport.Report, sc c16Scenario) vsched.Scenario {
 						if o.err == nil {
 							viol["C16/read/missing-version-served"] = fmt.Sprintf("Get of a version the document does not have succeeded [%s]", name)
 						}
-					case "put", "ups":
+					case "actf":
+						// the injected failure may or may not have been consumed by this call (a cache hit loads nothing);
+						// either answer is legal for this call, later reads are judged normally
+					case "put", "ups", "new":
 						if o.err != nil {
 							viol["C16/write/unexpected-error/"+o.op] = fmt.Sprintf("%s(%s): %v", o.op, o.doc, o.err)
 						}
@@ -326,7 +429,7 @@ type c16Replay struct {
 func TestVerifC16(t *testing.T) {
 	r := vreport.Begin("C16")
 	defer r.Finish(t)
-	r.Rule("scenarios = thread programs over {get, failing get, get-active, put, upsert, remove, peek, metadata-only channel change + invalidation} on two documents x item capacity {1,2} x byte limit {0, small}; for each, every schedule with at most B preemptions over all shim mutex, value-lock and atomic operations of the revision cache files plus backing-store loads; non-trivial = distinct (scenario, schedule)")
+	r.Rule("scenarios = thread programs over {get, get of a version that does not exist, get-active, get-active whose body load fails once, put, upsert, remove, peek, metadata-only channel change + invalidation, creation of a third document by a writer while readers ask for it} on two (three) documents x item capacity {1,2} x byte limit {0, small}; for each, every schedule with at most B preemptions over all shim mutex, value-lock and atomic operations of the revision cache files plus backing-store loads; non-trivial = distinct (scenario, schedule)")
 	r.Assume("the delta cache is off; the backing store is a harness map whose loads are scheduling points; values put by writers equal the stored content (a writer puts what it wrote)")
 
 	mk := func(sc c16Scenario, bound int) vsched.Config {
@@ -377,6 +480,18 @@ func TestVerifC16(t *testing.T) {
 	add([][]string{{"get1", "rem1"}, {"put1", "get2"}}, nil)
 	add([][]string{{"get1", "get2"}, {"get2", "get1"}}, nil)
 	add([][]string{{"ups1", "rem1"}, {"get1", "peek1"}}, []string{"d1"})
+	// a reader asks for a document that is being created: its failed load must not disturb the writer's entry
+	add([][]string{{"get3"}, {"new3"}}, nil)
+	add([][]string{{"act3"}, {"new3"}}, nil)
+	add([][]string{{"get3", "get3"}, {"new3"}}, nil)
+	add([][]string{{"get3"}, {"new3"}, {"get3"}}, nil)
+	add([][]string{{"get3"}, {"new3", "get3"}}, nil)
+	// a body load that fails once after the document lookup succeeded must not stay in the cache
+	add([][]string{{"actf1", "act1"}}, nil)
+	add([][]string{{"actf1", "get1", "act1"}}, nil)
+	add([][]string{{"actf1"}, {"act1"}}, nil)
+	add([][]string{{"actf1", "act1"}, {"get1"}}, nil)
+	add([][]string{{"actf1", "peek1"}, {"rem1"}}, nil)
 	// metadata-only channel change racing with readers (no writer puts: the revision is not new)
 	add([][]string{{"chan1"}, {"get1"}}, []string{"d1"})
 	add([][]string{{"chan1"}, {"act1"}}, []string{"d1"})
